@@ -1,0 +1,73 @@
+//! Read-only views of internal state for the external verification harness.
+//! Compiled only with the `verif` cargo feature; nothing here mutates anything.
+
+use crate::line::Line;
+use crate::parser::State;
+use crate::pen::Pen;
+
+#[derive(Debug, Clone)]
+pub struct BufferState {
+    pub lines: Vec<Line>,
+    pub cols: usize,
+    pub rows: usize,
+    pub limit: Option<usize>,
+    pub hard_limit: Option<usize>,
+    pub trim_needed: bool,
+}
+
+#[derive(Debug, Clone)]
+pub struct CtxState {
+    pub col: usize,
+    pub row: usize,
+    pub pen: Pen,
+    pub origin_mode: bool,
+    pub auto_wrap_mode: bool,
+}
+
+#[derive(Debug, Clone)]
+pub struct ParserState {
+    pub state: State,
+    /// all 32 parameters: (cur_part, all 6 parts)
+    pub params: Vec<(usize, Vec<u16>)>,
+    pub cur_param: usize,
+    pub intermediate: Option<char>,
+}
+
+#[derive(Debug, Clone)]
+pub struct TerminalState {
+    pub cols: usize,
+    pub rows: usize,
+    pub buffer: BufferState,
+    pub other_buffer: BufferState,
+    pub alternate_active: bool,
+    pub scrollback_limit: Option<usize>,
+    pub cursor_col: usize,
+    pub cursor_row: usize,
+    pub cursor_visible: bool,
+    pub pen: Pen,
+    pub charsets_drawing: [bool; 2],
+    pub active_charset: usize,
+    pub tabs: Vec<usize>,
+    pub insert_mode: bool,
+    pub origin_mode: bool,
+    pub auto_wrap_mode: bool,
+    pub new_line_mode: bool,
+    pub cursor_keys_app_mode: bool,
+    pub pending_wrap: bool,
+    pub top_margin: usize,
+    pub bottom_margin: usize,
+    pub saved_ctx: CtxState,
+    pub alternate_saved_ctx: CtxState,
+    pub dirty_lines: Vec<bool>,
+    pub xtwinops: bool,
+}
+
+#[derive(Debug, Clone)]
+pub struct VtState {
+    pub parser: ParserState,
+    pub terminal: TerminalState,
+}
+
+pub fn line_wrapped(line: &Line) -> bool {
+    line.wrapped
+}
